@@ -1,8 +1,27 @@
 // opaque crate/external types of the daemon units that do not look inside records or services
 #[verifier::external_body] pub struct Interface { x: u8 }
 #[verifier::external_body] pub struct IfAddr { x: u8 }
+// ServiceInfo: opaque but for its per-interface status table; DnsRegistry: opaque but for a ghost log of the
+// announcements made with it (announce_service_on_intf) - what the re-send handler is specified against
 #[verifier::external_body] pub struct DnsRegistry { x: u8 }
 #[verifier::external_body] pub struct ServiceInfo { x: u8 }
+impl ServiceInfo {
+    pub uninterp spec fn statuses(&self) -> Map<u32, ServiceStatus>;
+    // everything but the status table
+    pub uninterp spec fn ident(&self) -> int;
+    #[verifier::external_body]
+    pub fn set_status(&mut self, if_index: u32, status: ServiceStatus)
+        ensures final(self).statuses() == old(self).statuses().insert(if_index, status), final(self).ident() == old(self).ident(),
+    { unimplemented!() }
+    #[verifier::external_body]
+    pub fn get_hostname(&self) -> (r: &str) { unimplemented!() }
+}
+impl DnsRegistry {
+    // (service, interface, whether a packet went out) per call of announce_service_on_intf
+    pub uninterp spec fn announce_log(&self) -> Seq<(int, MyIntf, bool)>;
+    #[verifier::external_body]
+    pub fn resolve_name<'a>(&'a self, name: &'a str) -> (r: &'a str) { unimplemented!() }
+}
 #[verifier::external_type_specification]
 #[verifier::external_body]
 pub struct ExIpAddr(IpAddr);
